@@ -22,6 +22,7 @@ var (
 	c12TIface  = reflect.TypeOf((*interface{})(nil)).Elem()
 	c12TPtr    = reflect.TypeOf(&T{})
 	c12TInts   = reflect.TypeOf([]int{})
+	c12TFloat  = reflect.TypeOf(2.5)
 	c12TMap    = reflect.TypeOf(map[string]interface{}{})
 	c12THMap   = reflect.TypeOf(hctx.Map{})
 	c12THC     = reflect.TypeOf(plush.HelperContext{})
@@ -29,7 +30,7 @@ var (
 	c12TErr    = reflect.TypeOf((*error)(nil)).Elem()
 )
 
-var c12ParamTypes = []reflect.Type{c12TString, c12TInt, c12TBool, c12TIface, c12TPtr, c12TInts}
+var c12ParamTypes = []reflect.Type{c12TString, c12TInt, c12TBool, c12TIface, c12TPtr, c12TInts, c12TFloat}
 
 type c12Sig struct {
 	fixed    []reflect.Type
@@ -209,6 +210,7 @@ func c12Args(e *c12Env) []c12Arg {
 		{name: "bool", src: "true", val: func(*c12Env) interface{} { return true }},
 		{name: "recorded-int", src: `val("ID", 5)`, val: func(*c12Env) interface{} { return 5 }, id: "x"},
 		{name: "ints", src: "ints", val: func(*c12Env) interface{} { return []int{1, 2} }},
+		{name: "float", src: "2.5", val: func(*c12Env) interface{} { return 2.5 }},
 	}
 }
 
@@ -320,7 +322,7 @@ func c12Sigs(maxFixed int) []c12Sig {
 				}
 			}
 		}
-		for _, v := range []reflect.Type{c12TString, c12TInt, c12TIface} {
+		for _, v := range []reflect.Type{c12TString, c12TInt, c12TIface, c12TFloat} {
 			for res := 0; res < 6; res++ {
 				sigs = append(sigs, c12Sig{fixed: ft, variadic: v, result: res})
 			}
@@ -513,7 +515,7 @@ func c12Class(s c12Sig, args []c12Arg) string {
 func c12Run(b *core.B) {
 	sigs := c12Sigs(2)
 	b.SetExtra("signatures_in_family", len(sigs))
-	nargKinds := 8
+	nargKinds := 9
 	var shapes [][]int
 	var rec func(cur []int, n int)
 	rec = func(cur []int, n int) {
@@ -595,6 +597,8 @@ func c12Run(b *core.B) {
 					sh[j] = 4
 				case c12TInts:
 					sh[j] = 7
+				case c12TFloat:
+					sh[j] = 8
 				}
 			}
 		}
@@ -606,7 +610,7 @@ func init() {
 	core.Register(&core.Prop{
 		ID:    "C12",
 		Level: "exploration",
-		Rule: "helper signatures built at run time with reflect.FuncOf/MakeFunc (recording bodies): 0-2 fixed parameters over {string, int, bool, interface{}, *T, []int} x trailing {none, map[string]interface{}, hctx.Map} x {none, plush.HelperContext, hctx.HelperContext} or a variadic tail {...string, ...int, ...interface{}} x 6 result shapes ((), (T), (T,nil), (T,err), (nil error), (err)) = 3096 signatures, crossed with every call of 0-3 arguments over 8 argument kinds (string, int, nil, hash literal, pointer variable, bool, recorded call, []int variable) with and without a block (all pairs in thorough, a stratified 1/60 sample in quick), plus 8 recording methods on struct receivers (value receiver, pointer receiver, receiver reached through a field) crossed with the same calls, plus random 3-parameter signatures and 4-argument calls. Oracle: a reference binder written from the property text predicts accept/reject and the exact received arguments; the recording body reports what arrived (values, zero values for nil, auto-supplied map/context incl. the block rendered through the context, variadic tail), the recorded argument trace, invocation count, and result handling. Non-trivial = judged (signature, call) pair.",
+		Rule: "helper signatures built at run time with reflect.FuncOf/MakeFunc (recording bodies): 0-2 fixed parameters over {string, int, bool, interface{}, *T, []int, float64} x trailing {none, map[string]interface{}, hctx.Map} x {none, plush.HelperContext, hctx.HelperContext} or a variadic tail {...string, ...int, ...interface{}, ...float64} x 6 result shapes ((), (T), (T,nil), (T,err), (nil error), (err)) signatures, crossed with every call of 0-3 arguments over 9 argument kinds (string, int, float, nil, hash literal, pointer variable, bool, recorded call, []int variable) with and without a block (all pairs in thorough, a stratified 1/60 sample in quick), plus 8 recording methods on struct receivers (value receiver, pointer receiver, receiver reached through a field) crossed with the same calls, plus random 3-parameter signatures and 4-argument calls. Oracle: a reference binder written from the property text predicts accept/reject and the exact received arguments; the recording body reports what arrived (values, zero values for nil, auto-supplied map/context incl. the block rendered through the context, variadic tail), the recorded argument trace, invocation count, and result handling. Non-trivial = judged (signature, call) pair.",
 		Assume:  []string{"too few non-optional arguments is not judged (the property is silent)", "assignability is Go's reflect AssignableTo, as the property words it"},
 		Batches: batchesQT(16, 64),
 		Run:     c12Run,
